@@ -5,7 +5,7 @@ CHECK = {
     "assumptions": [
         "message alphabet: ClientCompatResponse values of serialized size 0, 2, 3 and 5 bytes (no valid protobuf message has size 1), sequences of 1-3 messages; longer messages/sequences are outside the bound",
         "a Read answer is min(len(p), rest of the scripted chunk); zero-length Reads are answered (0,nil) like an os.File (or, in a separate variant for ReadDelimitedMessage, with the stream's state like bytes.Reader/io.Pipe: the terminal error, resp. blocking on a stalled stream); readers never return (0,nil) for a non-empty buffer; an error, once returned, is sticky",
-        "compositions are complete for delivered prefixes up to 12 (quick) / 18 binary, 16 JSON (thorough) bytes; longer prefixes use all compositions into <=3 (whole stream) or <=2 (cut streams) chunks plus the all-1-byte one",
+        "compositions are complete for delivered prefixes up to 12 (quick) / 17 binary, 16 JSON (thorough) bytes; a delivered prefix that is byte-identical to one of an earlier stream is enumerated once; longer prefixes use all compositions into <=3 (whole stream) or <=2 (cut streams) chunks plus the all-1-byte one",
         "size limit and timeout are properties of ReadDelimitedMessage only; the peer-side StreamDecoders have neither parameter, so oversize and stall cases are not run against them (the binary decoder allocates whatever the prefix declares - reported as an observation, not a violation)",
         "when the stall happens before the first byte of a message the timeout text need not carry counts (nothing was received); otherwise both scripted numbers k and n must appear in the text, wording free",
         "a timeout error that arrives earlier than the configured period is recorded as an outcome, not a violation ('within the configured period')",
